@@ -105,6 +105,8 @@ func scalarFrags() []Frag {
 		Frag{"types-int-str", J{"type": A{"integer", "string"}}, g},
 		Frag{"types-num-null", J{"type": A{"number", "null"}}, g},
 		Frag{"enumMixed", J{"enum": A{1, "a", nil, true, 2.5}}, g},
+		Frag{"enumEmpty", J{"enum": A{}}, g},
+		Frag{"typesEmpty", J{"type": A{}}, g},
 		Frag{"enumDeep", J{"enum": A{A{1}, J{"a": nil}, A{}}}, g},
 		Frag{"constNum", J{"const": 2}, g},
 		Frag{"constNull", J{"const": nil}, g},
@@ -305,6 +307,11 @@ func FamilyNest(ts TmplSpec, depth3 bool) []*Skeleton {
 	add("items.branch-records-then-fails", merge(J{"anyOf": A{merge(p2, J{"allOf": A{p1, false}}), p1}}, ui))
 	add("items.oneOf", merge(J{"oneOf": A{merge(p2, J{"minItems": 2}), merge(p1, J{"maxItems": 1})}}, ui))
 	add("items.allOf", merge(J{"allOf": A{p1, p2}}, ui))
+	add("items.allOf-longer-first", merge(J{"allOf": A{p2, p1}}, ui))
+	add("items.anyOf-longer-first", merge(J{"anyOf": A{p2, p1}}, ui))
+	add("items.ref-longer-then-shorter", merge(J{"$ref": "#/$defs/d", "$defs": J{"d": p2}, "allOf": A{p1}}, ui))
+	add("items.items-then-prefix", merge(J{"allOf": A{J{"items": true}, p1}}, ui))
+	add("props.allOf-more-first", merge(J{"allOf": A{J{"properties": J{"a": true, "b": true}}, pa}}, up))
 	add("items.not", merge(J{"not": J{"not": p1}}, ui))
 	add("items.if", merge(J{"if": merge(p1, J{"minItems": 1}), "then": p2, "else": J{"maxItems": 0}}, ui))
 	add("items.contains", merge(J{"contains": lX}, ui))
